@@ -196,7 +196,7 @@ def ppo_loss(
     surrogate2 = jnp.clip(ratios, 1 - clip, 1 + clip) * advantages
     policy_loss = -jnp.mean(jnp.minimum(surrogate1, surrogate2))
 
-    values = critic(observations)
+    values = critic(observations).reshape(returns.shape)
     value_loss = jnp.mean((returns - values) ** 2)
 
     return (
